@@ -43,6 +43,11 @@
 //!            (so d2a is not Applied while p2b is absent), no block Ready; state == state of the complete blocks ==
 //!            state of a fresh Melda::new on the same files; with all but d2b delivered the state is A's after d2a,
 //!            with everything delivered it is A's after melding B.
+//!   truncated-then-completed:<item>+<delay>:<order>  (long history) one pack or block file first becomes visible TRUNCATED
+//!            to half of its bytes under its final name, a refresh happens (Ok or Err, no panic; if Ok the state is that of
+//!            the complete blocks over the intact items), <delay> further files later (or after all others, "@end") the item
+//!            is completed and refresh runs again: from then on refresh is Ok and the long-lived replica == fresh Melda::new
+//!            on the same storage == the causally complete blocks, Applied blocks == complete blocks.
 //! Everything runs in worker threads under a 10 s watchdog (`hang:` case, oracle stops).
 use super::orch::{self, Dyn, Listing, ListingAdapter, Out, Rng};
 use super::FailureClasses;
@@ -609,6 +614,168 @@ fn damage_family(thorough: bool, rng: &mut Rng, workers: usize, out: &Out) {
     });
 }
 
+// ------------------------------------------------------------------------------------------ truncated, then completed
+
+pub struct TruncJob {
+    item: usize,
+    /// how many further files are delivered (each followed by a refresh) before the item is completed
+    /// (usize::MAX: completed after everything else)
+    delay: usize,
+    order: Vec<usize>,
+}
+
+/// One item (a pack or a block file) first becomes visible TRUNCATED to half of its bytes under its final name (a file
+/// being synchronised), a refresh happens (Ok or Err, no panic), later the item is completed and refresh runs again.
+/// While the item is truncated: the replica's state == the state of the causally complete blocks over the other
+/// delivered items whenever refresh returned Ok.  From the completion on, after every refresh (must be Ok): state ==
+/// fresh Melda::new on the same storage == state of the complete blocks; Applied blocks == complete blocks.
+fn run_truncated(h: &Hist, memo: &mut HashMap<u32, Expect>, job: &TruncJob, out: &Out) {
+    let os = h.order_str(&job.order);
+    let id = format!("truncated-then-completed:{}{}:{}", h.labels[job.item], if job.delay == usize::MAX { "@end".to_string() } else { format!("+{}", job.delay) }, os);
+    let mut input = input_of(h, &job.order);
+    input["truncated"] = json!(h.labels[job.item]);
+    input["delay"] = if job.delay == usize::MAX { json!("end") } else { json!(job.delay) };
+    out.begin(&id, input.clone());
+    out.case(&id, true);
+    let fail = |what: String| out.fail("truncated-then-completed", &id, input.clone(), &what);
+    let map = std::sync::Arc::new(std::sync::Mutex::new(std::collections::BTreeMap::new()));
+    let c = orch::dynof(orch::StoreAdapter { map: map.clone() });
+    let mut r: Melda = match orch::open(&c) {
+        Ok(r) => r,
+        Err(e) => return fail(format!("on an empty adapter: {}", e)),
+    };
+    let key = h.keys[job.item].clone();
+    let full = h.bytes[job.item].clone();
+    // events, each followed by a refresh: the files in order; the item arrives truncated and is completed
+    // `delay` deliveries later (0: right away), at the latest after everything else
+    #[derive(Clone, Copy, PartialEq)]
+    enum Ev {
+        Deliver(usize),
+        Truncated,
+        Completed,
+    }
+    let mut events: Vec<Ev> = vec![];
+    let mut countdown: Option<usize> = None;
+    for f in &job.order {
+        if *f == job.item {
+            events.push(Ev::Truncated);
+            countdown = Some(job.delay);
+        } else {
+            events.push(Ev::Deliver(*f));
+            if let Some(n) = countdown {
+                if n != usize::MAX && n > 0 {
+                    countdown = Some(n - 1);
+                }
+            }
+        }
+        if countdown == Some(0) {
+            events.push(Ev::Completed);
+            countdown = None;
+        }
+    }
+    if !events.contains(&Ev::Completed) {
+        events.push(Ev::Completed);
+    }
+    let mut mask = 0u32; // intact items only
+    let mut pending = false;
+    let mut completed = false;
+    for (k, ev) in events.iter().enumerate() {
+        let what = match ev {
+            Ev::Truncated => {
+                map.lock().unwrap().insert(key.clone(), full[..full.len() / 2].to_vec());
+                pending = true;
+                format!("{} arrives truncated", h.labels[job.item])
+            }
+            Ev::Deliver(f) => {
+                map.lock().unwrap().insert(h.keys[*f].clone(), h.bytes[*f].clone());
+                mask |= 1 << f;
+                format!("{} arrives", h.labels[*f])
+            }
+            Ev::Completed => {
+                map.lock().unwrap().insert(key.clone(), full.clone());
+                mask |= 1 << job.item;
+                completed = true;
+                format!("{} completed", h.labels[job.item])
+            }
+        };
+        let at = format!("step {} ({})", k + 1, what);
+        let refreshed = match orch::g(|| r.refresh()) {
+            Ok(x) => x,
+            Err(p) => return fail(format!("{}: panic in refresh: {}", at, p.lines().next().unwrap_or(""))),
+        };
+        let truncated_now = pending && !completed;
+        let ex = match expect(h, memo, mask) {
+            Ok(e) => e,
+            Err(e) => return fail(format!("driver: {}", e)),
+        };
+        if truncated_now {
+            if refreshed.is_ok() {
+                let s = orch::state(&r);
+                if s != ex.reference {
+                    let d = orch::first_difference(&s, &ex.reference, &orch::STATE_KEYS).unwrap_or_default();
+                    return fail(format!("{}: refresh returned Ok while the item is truncated, but the state is not that of the complete blocks over the intact items; {}", at, d));
+                }
+            }
+            continue;
+        }
+        if let Err(e) = refreshed {
+            return fail(format!("{}: refresh is Err({}) although every stored item is intact", at, e));
+        }
+        let s = orch::state(&r);
+        if s != ex.fresh {
+            let d = orch::first_difference(&s, &ex.fresh, &orch::STATE_KEYS).unwrap_or_else(|| ex.fresh.to_string());
+            return fail(format!("{}: long-lived replica vs fresh Melda::new on the same storage; {}", at, d));
+        }
+        if s != ex.reference {
+            let d = orch::first_difference(&s, &ex.reference, &orch::STATE_KEYS).unwrap_or_default();
+            return fail(format!("{}: long-lived replica vs the causally complete blocks; {}", at, d));
+        }
+        match orch::g(|| r.vf_delta_statuses()) {
+            Err(p) => return fail(format!("{}: panic reading the block statuses: {}", at, p)),
+            Ok(st) => {
+                let applied: BTreeSet<String> = st.iter().filter(|(_, s)| s == "Applied").map(|(i, _)| i.clone()).collect();
+                if applied != ex.complete {
+                    let label = |bid: &String| h.blocks.iter().find(|b| &b.id == bid).map(|b| h.labels[b.file].clone()).unwrap_or_else(|| bid.clone());
+                    return fail(format!("{}: Applied blocks {:?} but complete blocks {:?}", at, applied.iter().map(label).collect::<Vec<String>>(), ex.complete.iter().map(label).collect::<Vec<String>>()));
+                }
+            }
+        }
+    }
+}
+
+fn truncated_jobs(h: &Hist, thorough: bool, rng: &mut Rng) -> Vec<TruncJob> {
+    let mut jobs = vec![];
+    let per = if thorough { 25 } else { 3 };
+    for item in 0..h.n() {
+        for delay in [0usize, 1, 3, usize::MAX] {
+            for _ in 0..per {
+                let mut order: Vec<usize> = (0..h.n()).collect();
+                rng.shuffle(&mut order);
+                jobs.push(TruncJob { item, delay, order });
+            }
+        }
+    }
+    jobs
+}
+
+fn truncated_family(thorough: bool, rng: &mut Rng, workers: usize, out: &Out) {
+    let h = match build(true, false) {
+        Ok(h) => Arc::new(h),
+        Err(e) => {
+            out.fail("history", "history:long", json!({"history": "long"}), &e);
+            return;
+        }
+    };
+    let jobs = truncated_jobs(&h, thorough, rng);
+    out.note(&format!("truncated-then-completed: {} scenarios on the {} files of the long history", jobs.len(), h.n()));
+    orch::fan_out(out, workers, jobs, move |part: Vec<TruncJob>, out: &Out| {
+        let mut memo: HashMap<u32, Expect> = HashMap::new();
+        for j in &part {
+            run_truncated(&h, &mut memo, j, out);
+        }
+    });
+}
+
 // ------------------------------------------------------------------------------------------ shared content
 
 fn content_less(d: &str) -> bool {
@@ -970,6 +1137,7 @@ fn work(thorough: bool, seed: u64, out: &Out) {
         }
         damage_family(false, &mut rng, 1, out);
         shared_family(false, out);
+        truncated_family(false, &mut rng, 1, out);
         return;
     }
     // thorough: the orders are spread over sub-workers (each with its own memo of expected states)
@@ -1035,18 +1203,19 @@ fn work(thorough: bool, seed: u64, out: &Out) {
     }
     damage_family(true, &mut rng, workers, out);
     shared_family(true, out);
+    truncated_family(true, &mut rng, workers, out);
 }
 
 pub fn run(thorough: bool, seed: u64) -> Report {
     let mut rep = Report::new(
         "delivery",
         &(if thorough {
-            "one fixed source history (A: d1; B melds; A: d2a || B: d2b; A melds, d3 with parents {d2a,d2b}; 4 blocks + 4 packs = 8 item files): ALL 8! delivery orders of the files into an empty adapter observed by one long-lived replica, refresh + 3 checks after every delivered file; the same history extended by a pack-less block d4 (9 files): 20000 distinct seeded orders; listing-order variants (reversed, rotated by 1, rotated by half, sorted descending, child blocks first) on every subset of the 8 files and on the full set + 64 seeded subsets of the 9 files; damage-after-index: every pack listed by a block (p1, p2a, p2b, p3) x 18 damages (xor-1 at the middle and at 8 evenly spread positions, 5 replacement bytes incl. first and last byte, truncation to 0 / half / len-1, deletion) x {right after indexing, just before the block arrives} x 60 seeded orders with the pack before its block; shared-content: all 720 orders of its 6 files"
+            "one fixed source history (A: d1; B melds; A: d2a || B: d2b; A melds, d3 with parents {d2a,d2b}; 4 blocks + 4 packs = 8 item files): ALL 8! delivery orders of the files into an empty adapter observed by one long-lived replica, refresh + 3 checks after every delivered file; the same history extended by a pack-less block d4 (9 files): 20000 distinct seeded orders; listing-order variants (reversed, rotated by 1, rotated by half, sorted descending, child blocks first) on every subset of the 8 files and on the full set + 64 seeded subsets of the 9 files; damage-after-index: every pack listed by a block (p1, p2a, p2b, p3) x 18 damages (xor-1 at the middle and at 8 evenly spread positions, 5 replacement bytes incl. first and last byte, truncation to 0 / half / len-1, deletion) x {right after indexing, just before the block arrives} x 60 seeded orders with the pack before its block; shared-content: all 720 orders of its 6 files; truncated-then-completed: each of the 9 files of the long history x completion after 0 / 1 / 3 further files / at the end x 25 seeded orders"
         } else {
-            "one fixed source history (A: d1; B melds; A: d2a || B: d2b; A melds, d3 with parents {d2a,d2b}; 4 blocks + 4 packs = 8 item files): 600 seeded orders out of the 720 that deliver d1 and its pack first (both ways) followed by a permutation of the other 6 files, plus 120 seeded permutations of all 8 files, plus 150 seeded permutations of the 9 files of the same history extended by a pack-less block d4, into an empty adapter observed by one long-lived replica, refresh + 3 checks after every delivered file; listing-order variants (reversed, rotated by 1, rotated by half, sorted descending, child blocks first) on the full sets and 6 seeded subsets; damage-after-index: every pack listed by a block (p1, p2a, p2b, p3) x {one byte xor 1, truncated to half, deleted} x {right after indexing, just before the block arrives} x 8 seeded orders with the pack before its block; shared-content: the 4 files of A's own blocks in all 24 orders followed by p2b, d2b in both orders (48 orders of 6 files)"
+            "one fixed source history (A: d1; B melds; A: d2a || B: d2b; A melds, d3 with parents {d2a,d2b}; 4 blocks + 4 packs = 8 item files): 600 seeded orders out of the 720 that deliver d1 and its pack first (both ways) followed by a permutation of the other 6 files, plus 120 seeded permutations of all 8 files, plus 150 seeded permutations of the 9 files of the same history extended by a pack-less block d4, into an empty adapter observed by one long-lived replica, refresh + 3 checks after every delivered file; listing-order variants (reversed, rotated by 1, rotated by half, sorted descending, child blocks first) on the full sets and 6 seeded subsets; damage-after-index: every pack listed by a block (p1, p2a, p2b, p3) x {one byte xor 1, truncated to half, deleted} x {right after indexing, just before the block arrives} x 8 seeded orders with the pack before its block; shared-content: the 4 files of A's own blocks in all 24 orders followed by p2b, d2b in both orders (48 orders of 6 files); truncated-then-completed: each of the 9 files of the long history x completion after 0 / 1 / 3 further files / at the end x 3 seeded orders"
         })
         .to_string(),
-        "enumeration of delivery orders (seeded where stated); one case per order, step and check (refresh-vs-reload / causal / status), per listing variant and file set, per damage scenario (all its steps), and per shared-content order and step; non-trivial = a delivered block is causally incomplete at this step or was at the previous one; 10 s watchdog per worker thread (thorough: orders spread over 3 threads)",
+        "enumeration of delivery orders (seeded where stated); one case per order, step and check (refresh-vs-reload / causal / status), per listing variant and file set, per damage scenario and per truncated-then-completed scenario (all their steps), and per shared-content order and step; non-trivial = a delivered block is causally incomplete at this step or was at the previous one; 10 s watchdog per worker thread (thorough: orders spread over 3 threads)",
     );
     if std::env::var_os("RAYON_NUM_THREADS").is_none() {
         std::env::set_var("RAYON_NUM_THREADS", "2");
@@ -1082,7 +1251,10 @@ pub fn replay(case: &Value) -> Value {
             }
         };
         let labels = |key: &str| -> Option<Vec<usize>> { inp[key].as_array()?.iter().map(|l| l.as_str().and_then(|l| h.idx(l))).collect() };
-        if let (Some(order), Some(pack), Some(dmg)) = (labels("order"), inp["pack"].as_str().and_then(|l| h.idx(l)), Dmg::from_json(&inp["damage"])) {
+        if let (Some(order), Some(item)) = (labels("order"), inp["truncated"].as_str().and_then(|l| h.idx(l))) {
+            let delay = inp["delay"].as_u64().map(|d| d as usize).unwrap_or(usize::MAX);
+            run_truncated(&h, &mut HashMap::new(), &TruncJob { item, delay, order }, out);
+        } else if let (Some(order), Some(pack), Some(dmg)) = (labels("order"), inp["pack"].as_str().and_then(|l| h.idx(l)), Dmg::from_json(&inp["damage"])) {
             let mut memo = HashMap::new();
             run_damage(&h, &mut memo, &DamageJob { pack, dmg, late: inp["late"].as_bool().unwrap_or(false), order }, out);
         } else if let Some(order) = labels("order") {
